@@ -11,6 +11,7 @@ func extractAll(p *pkg, f *facts) {
 	authFacts(p, f)
 	handleFacts(p, f)
 	cacheFacts(p, f)
+	limiterFacts(p, f)
 }
 
 func (p *pkg) constNat(f *facts, leanName, goName string) {
@@ -204,4 +205,98 @@ func cacheFacts(p *pkg, f *facts) {
 	} else {
 		f.boolean("disableNegativePurges", false, false, "func ConfigureNegativeCaching not found")
 	}
+}
+
+func limiterFacts(p *pkg, f *facts) {
+	// order of limiter consultations in AllowRequest
+	if fn, ok := p.funcs["RateLimiter.AllowRequest"]; ok {
+		var order []string
+		ast.Inspect(fn.Body, func(n ast.Node) bool {
+			ce, ok := n.(*ast.CallExpr)
+			if !ok {
+				return true
+			}
+			se, ok := ce.Fun.(*ast.SelectorExpr)
+			if !ok || se.Sel.Name != "Allow" {
+				return true
+			}
+			order = append(order, exprString(p.fset, se.X))
+			return true
+		})
+		if len(order) < 2 {
+			f.boolean("allowRequestGlobalFirst", false, false, "fewer than two Allow calls in AllowRequest")
+		} else {
+			gpos, ipos := -1, -1
+			for i, o := range order {
+				if strings.Contains(o, "globalLimiter") && gpos < 0 {
+					gpos = i
+				}
+				if strings.Contains(o, "perIPLimiter") && ipos < 0 {
+					ipos = i
+				}
+			}
+			if gpos < 0 || ipos < 0 {
+				f.boolean("allowRequestGlobalFirst", false, false, "global or per-IP limiter not consulted in AllowRequest")
+			} else {
+				// global first unless it comes after every other consultation
+				f.boolean("allowRequestGlobalFirst", gpos != len(order)-1, true, "")
+			}
+		}
+	} else {
+		f.boolean("allowRequestGlobalFirst", false, false, "func AllowRequest not found")
+	}
+	// per-operation bursts: map literal in NewPerOperationLimiter
+	if fn, ok := p.funcs["NewPerOperationLimiter"]; ok {
+		names := map[string]string{"OpTypeReadLarge": "opBurstReadLarge", "OpTypeWriteLarge": "opBurstWriteLarge", "OpTypeReaddir": "opBurstReaddir", "OpTypeMount": "opBurstMount"}
+		got := map[string]int64{}
+		ast.Inspect(fn.Body, func(n ast.Node) bool {
+			as, ok := n.(*ast.AssignStmt)
+			if !ok || len(as.Lhs) != 1 || exprString(p.fset, as.Lhs[0]) != "bursts" {
+				return true
+			}
+			if cl, ok := as.Rhs[0].(*ast.CompositeLit); ok {
+				for _, e := range cl.Elts {
+					if kv, ok := e.(*ast.KeyValueExpr); ok {
+						if v, ok := p.eval(kv.Value); ok {
+							got[exprString(p.fset, kv.Key)] = v
+						}
+					}
+				}
+			}
+			return true
+		})
+		for g, l := range names {
+			v, ok := got[g]
+			f.nat(l, v, ok, "burst for "+g+" not found in NewPerOperationLimiter")
+		}
+	} else {
+		for _, l := range []string{"opBurstReadLarge", "opBurstWriteLarge", "opBurstReaddir", "opBurstMount"} {
+			f.nat(l, 0, false, "func NewPerOperationLimiter not found")
+		}
+	}
+	// `count > N` large-I/O threshold in handleRead
+	if fn, ok := p.funcs["NFSProcedureHandler.handleRead"]; ok {
+		var v int64
+		found := false
+		ast.Inspect(fn.Body, func(n ast.Node) bool {
+			if be, ok := n.(*ast.BinaryExpr); ok && be.Op == token.GTR && !found && exprString(p.fset, be.X) == "count" {
+				if x, ok := p.eval(be.Y); ok {
+					v, found = x, true
+				}
+			}
+			return true
+		})
+		f.nat("largeIoThreshold", v, found, "no `count > N` in handleRead")
+	} else {
+		f.nat("largeIoThreshold", 0, false, "func handleRead not found")
+	}
+	// all limiter kinds are token buckets built by NewTokenBucket and consulted through Allow only
+	ok1 := true
+	for _, fnName := range []string{"NewRateLimiter", "PerIPLimiter.Allow", "PerOperationLimiter.Allow", "RateLimiter.AllowRequest"} {
+		fn, ok := p.funcs[fnName]
+		if !ok || p.countCalls(fn, "NewTokenBucket") == 0 {
+			ok1 = false
+		}
+	}
+	f.boolean("limitersAreTokenBuckets", ok1, true, "")
 }
